@@ -16,6 +16,37 @@ pub struct Violation {
     pub detail: Value,
 }
 
+/// deduplicating collection of violations: one stored case per signature, with a count
+#[derive(Default)]
+pub struct VSet {
+    pub map: BTreeMap<String, (usize, Value)>,
+}
+
+impl VSet {
+    /// `detail` is only evaluated for a signature not seen before
+    pub fn push(&mut self, sig: String, detail: impl FnOnce() -> Value) {
+        match self.map.get_mut(&sig) {
+            Some(e) => e.0 += 1,
+            None => {
+                self.map.insert(sig, (1, detail()));
+            }
+        }
+    }
+    pub fn merge(&mut self, other: VSet) {
+        for (sig, (n, d)) in other.map {
+            match self.map.get_mut(&sig) {
+                Some(e) => e.0 += n,
+                None => {
+                    self.map.insert(sig, (n, d));
+                }
+            }
+        }
+    }
+    pub fn len(&self) -> usize {
+        self.map.len()
+    }
+}
+
 struct Known {
     property: String,
     sig_prefix: String,
@@ -72,6 +103,13 @@ impl Report {
         }
     }
 
+    pub fn violation_set(&mut self, vs: VSet) {
+        for (sig, (n, detail)) in vs.map {
+            let e = self.by_sig.entry(sig).or_insert((0, detail));
+            e.0 += n;
+        }
+    }
+
     pub fn elapsed(&self) -> f64 {
         self.start.elapsed().as_secs_f64()
     }
@@ -91,11 +129,17 @@ impl Report {
         let _ = std::fs::remove_dir_all(&replay_dir);
         let mut unknown = 0usize;
         let mut known_hits: BTreeMap<String, usize> = BTreeMap::new();
+        let mut known_sigs: BTreeMap<String, usize> = BTreeMap::new();
+        let mut known_examples: Vec<Value> = Vec::new();
         let mut n = 0usize;
         let mut per_class: BTreeMap<String, usize> = BTreeMap::new();
         for (sig, (count, detail)) in &self.by_sig {
             if let Some(k) = self.known_for(sig) {
                 *known_hits.entry(k.what.clone()).or_insert(0) += count;
+                *known_sigs.entry(sig.clone()).or_insert(0) += count;
+                if known_examples.len() < 12 {
+                    known_examples.push(json!({"sig": sig, "case": detail}));
+                }
                 continue;
             }
             unknown += 1;
@@ -125,6 +169,10 @@ impl Report {
         if let Some(obj) = coverage.as_object_mut() {
             obj.insert("known_finding_cases".into(), json!(known_hits.values().sum::<usize>()));
             obj.insert("distinct_violation_signatures".into(), json!(unknown));
+            if !known_sigs.is_empty() {
+                obj.insert("known_finding_signatures".into(), json!(known_sigs));
+                obj.insert("known_finding_examples".into(), json!(known_examples));
+            }
         }
         let evidence = json!({
             "property_id": self.property,
